@@ -139,8 +139,16 @@ def cases(rng, tier, shard, nshards):
                         yield dict(method=method, n=n, order=order, ratio=ratio, grid=True, clear=True)
                     k += 1
     for i in range(BUDGET[tier] // nshards):
-        yield dict(method=str(rng.choice(METHODS)), n=int(rng.integers(1, 11)), order=int(rng.integers(1, 11)),
-                   ratio=float(np.exp(rng.uniform(math.log(1.05), math.log(10.0)))), grid=False, clear=bool(rng.random() < 0.3))
+        c = dict(method=str(rng.choice(METHODS)), n=int(rng.integers(1, 11)), order=int(rng.integers(1, 11)),
+                 ratio=float(np.exp(rng.uniform(math.log(1.05), math.log(10.0)))), grid=False, clear=bool(rng.random() < 0.3))
+        yield c
+        if i % 4 == 0:
+            # ... and, in the same process, nearly the same ratio (equal to 4 .. 9 decimals): every ratio has its own rule
+            yield dict(c, ratio=float(c['ratio'] * (1.0 + float(rng.choice([-1, 1])) * 10.0 ** rng.uniform(-9, -4.3))), clear=False, near=True)
+    for j, r0 in enumerate(RATIOS):
+        if j % nshards == shard % len(RATIOS) or True:
+            for method in ('central', 'forward'):
+                yield dict(method=method, n=1, order=4, ratio=float(r0 * (1.0 + 2e-5)), grid=False, clear=False, near=True)
 
 
 def run_case(case, ctx):
